@@ -995,4 +995,13 @@ example (ks : List Bytes) (hks : ∀ k ∈ ks, k ≠ []) :
     subst e
     exact ⟨hks k hk, by decide⟩)
 
+set_option maxRecDepth 1000000 in
+/-- non-vacuity: a concrete history on the chain model. 33 ascending keys: every key goes in front of the first key until the node is full,
+the 33rd makes a new node in front of it (`uside` of the database block); key 20 then falls at position 22 of the full node: middle split,
+the records 17..31 move into a new node (slots 0..14 in order), the new record joins them; `pnum`, slot order and cached first keys of the
+three nodes as the C code leaves them. -/
+example : (KvChain.run false [] (((List.range 33).map fun i => KvNode.Op.put [i * 2 + 1] 0 [i]) ++ [KvNode.Op.put [20] 0 [7]])).map
+    (fun n => (n.pnum, n.pi.take 3, n.lkl, KvNode.lkLive n)) =
+    [(1, [0], 1, [65]), (17, [31, 30, 29], 1, [63]), (16, [0, 1, 2], 1, [29])] := by decide
+
 end IwModel.C06
